@@ -19,6 +19,7 @@ import (
 	"github.com/DemoHn/Zn/pkg/syntax/zh"
 
 	"verifharness/internal/pool"
+	"verifharness/internal/zn"
 )
 
 type numCase struct {
@@ -33,6 +34,7 @@ type numCase struct {
 	EB   int      `json:"eb"`
 	EE   int      `json:"ee"`
 	Reps []int    `json:"reps"`
+	Eval bool     `json:"eval"` // also evaluate the literal repeatedly in a program (a seeded sample)
 }
 
 var otherChars = []rune{'a', '甲', '_', 'x', 'f', 'é'}
@@ -89,6 +91,32 @@ func handleNum(raw json.RawMessage) interface{} {
 			want := decimalToFloat(c.Neg, intp, frac, c.ES == "-", ex)
 			if math.Float64bits(want) != math.Float64bits(val) && !(want == 0 && val == 0) {
 				ms = append(ms, map[string]interface{}{"kind": "value", "lit": string(lit), "want": fmt.Sprint(want), "got": fmt.Sprint(val)})
+			}
+			// the identifier denotes that number EVERY time it is evaluated: the same occurrence in a loop, as the receiver of the
+			// in-place number methods, as an argument of a method that changes its input, in between plain uses
+			if c.Eval && !math.IsInf(want, 0) && true {
+				src := "如何改？\n    输入数\n    以数（自增：1）\n    输出数\n\n令果 = 【】\n令次 = 0\n每当次 < 3：\n    次 = 次 + 1\n    以果（后增：以 " + string(lit) + " （自增：1））\n    以果（后增：（改： " + string(lit) + " ））\n    以果（后增： " + string(lit) + " ）\n输出果\n"
+				o := zn.RunScript(src, nil)
+				okAll := o.Obs == "value"
+				var gotS []string
+				if okAll {
+					items, _ := o.Val["v"].([]interface{})
+					okAll = len(items) == 9
+					for i, it := range items {
+						v, _ := it.(zn.V)
+						gotS = append(gotS, fmt.Sprint(v["s"]))
+						w := want
+						if i%3 != 2 {
+							w = want + 1
+						}
+						if v["t"] != "num" || v["s"] != zn.NumStr(w) {
+							okAll = false
+						}
+					}
+				}
+				if !okAll {
+					ms = append(ms, map[string]interface{}{"kind": "value-on-re-evaluation", "lit": string(lit), "want": fmt.Sprintf("three times [%s+1, %s+1, %s]", zn.NumStr(want), zn.NumStr(want), zn.NumStr(want)), "got": fmt.Sprint(o.Obs, " ", gotS, " ", lastLine(o.Msg))})
+				}
 			}
 		}
 	}
